@@ -24,7 +24,7 @@ func normGJ(g orb.Geometry) orb.Geometry {
 	case orb.Ring:
 		return orb.Polygon{x}
 	case orb.Bound:
-		return x.ToPolygon()
+		return orb.Polygon{refmodel.BoundRing(x)}
 	case orb.Collection:
 		if len(x) == 0 {
 			return nil
